@@ -276,6 +276,25 @@ func (x *Exec) specField(s *State, base *Value, name string) *Value {
 			return f
 		}
 	}
+	if base.K == KSlice {
+		// projection of a slice of structs onto a field: the slice of that field's values (same length)
+		el := sliceElem(base)
+		if el != nil && el.K == KStruct {
+			if f := el.field(name); f != nil {
+				var ft types.Type
+				if sl, ok := base.Typ.Underlying().(*types.Slice); ok {
+					if st, ok := sl.Elem().Underlying().(*types.Struct); ok {
+						for i := 0; i < st.NumFields(); i++ {
+							if st.Field(i).Name() == name {
+								ft = types.NewSlice(st.Field(i).Type())
+							}
+						}
+					}
+				}
+				return &Value{K: KSlice, Typ: ft, Len: base.Len, Elem: f}
+			}
+		}
+	}
 	if base.K == KOpaque && base.Typ != nil {
 		if st, ok := derefStruct(base.Typ); ok {
 			for i := 0; i < st.NumFields(); i++ {
